@@ -160,7 +160,9 @@ func c08FamilyA(c *fx.Ctx) {
 							if lim.v != 0 {
 								cfg.Rules.MaxArraySizeBytes = lim.v
 							}
-							c.TraceInput(func() string { return fmt.Sprintf("length-field %s declared=%d payload=%d %s %s doc=%x", ld.name, l<<shift, payload, lim.name, dec.name, doc) })
+							c.TraceInput(func() string {
+								return fmt.Sprintf("length-field %s declared=%d payload=%d %s %s doc=%x", ld.name, l<<shift, payload, lim.name, dec.name, doc)
+							})
 							dec.run(doc, cfg) // warm-up: one-time initialisations are not charged
 							m := measureAlloc(func() { dec.run(doc, cfg) })
 							c.Add("evaluations", 1)
@@ -204,7 +206,9 @@ func c08Shapes() []c08Shape {
 	return []c08Shape{
 		{"cbe:list-of-small-ints", codec.CBE, 4000, func(n int) []byte { return rep([]byte{0x9a}, []byte{0x01}, n, []byte{0x9b}) }},
 		{"cbe:nested-lists", codec.CBE, 200, func(n int) []byte { return rep(nil, []byte{0x9a}, n, bytes.Repeat([]byte{0x9b}, n)) }},
-		{"cbe:nested-maps", codec.CBE, 200, func(n int) []byte { return rep(nil, []byte{0x99, 0x81, 'a'}, n, append([]byte{0x01}, bytes.Repeat([]byte{0x9b}, n)...)) }},
+		{"cbe:nested-maps", codec.CBE, 200, func(n int) []byte {
+			return rep(nil, []byte{0x99, 0x81, 'a'}, n, append([]byte{0x01}, bytes.Repeat([]byte{0x9b}, n)...))
+		}},
 		{"cbe:string-in-1-byte-chunks", codec.CBE, 16000, func(n int) []byte { return rep([]byte{0x90}, []byte{0x03, 'a'}, n, []byte{0x00}) }},
 		{"cbe:rid-in-1-byte-chunks", codec.CBE, 16000, func(n int) []byte { return rep([]byte{0x91}, []byte{0x03, 'a'}, n, []byte{0x00}) }},
 		{"cbe:u8-array-in-1-byte-chunks", codec.CBE, 4000, func(n int) []byte { return rep([]byte{0x93}, []byte{0x03, 7}, n, []byte{0x00}) }},
@@ -228,10 +232,14 @@ func c08Shapes() []c08Shape {
 			}
 			return append(out, 0x9b)
 		}},
-		{"cbe:padding-run", codec.CBE, 8000, func(n int) []byte { return rep([]byte{0x9a}, []byte{0x95 + 0x60}, 0, append(bytes.Repeat([]byte{0x7e}, n), 0x9b)) }},
+		{"cbe:padding-run", codec.CBE, 8000, func(n int) []byte {
+			return rep([]byte{0x9a}, []byte{0x95 + 0x60}, 0, append(bytes.Repeat([]byte{0x7e}, n), 0x9b))
+		}},
 		{"cte:list-of-small-ints", codec.CTE, 1000, t("[", "1 ", "]")},
 		{"cte:nested-lists", codec.CTE, 100, func(n int) []byte { return []byte("c0\n" + strings.Repeat("[", n) + strings.Repeat("]", n)) }},
-		{"cte:nested-maps", codec.CTE, 100, func(n int) []byte { return []byte("c0\n" + strings.Repeat("{\"a\"=", n) + "1" + strings.Repeat("}", n)) }},
+		{"cte:nested-maps", codec.CTE, 100, func(n int) []byte {
+			return []byte("c0\n" + strings.Repeat("{\"a\"=", n) + "1" + strings.Repeat("}", n))
+		}},
 		{"cte:one-long-string", codec.CTE, 10000, t("\"", "a", "\"")},
 		{"cte:string-of-escapes", codec.CTE, 2000, t("\"", "\\n", "\"")},
 		{"cte:string-of-codepoint-escapes", codec.CTE, 2000, t("\"", "\\[41]", "\"")},
@@ -340,7 +348,7 @@ func init() {
 				}
 				return ""
 			}
-			return "growth witnesses are replayed by re-running the shape named in the witness"
+			return "NOT-REPLAYABLE: growth witnesses name the shape; re-run `scripts/check.sh C08 quick`"
 		},
 	})
 }
